@@ -48,7 +48,7 @@ class Sandbox:
     def __init__(self, tag='w'):
         rundir = os.environ.get('FBMC_RUNDIR') or os.path.join(
             SCRATCH_BASE, 'fbmc.%d' % os.getpid())
-        self.base = os.path.join(rundir, '%s%d' % (tag, os.getpid()))
+        self.base = os.path.join(rundir, '%s%07d' % (tag[:1], os.getpid()))
         shutil.rmtree(self.base, ignore_errors=True)
         self.R = os.path.join(self.base, 'R')
         self.tmp = os.path.join(self.base, 'tmp')
